@@ -150,6 +150,8 @@ def classify(case, leaves):
             und = any(cc.undefined_mask(case["mode"], leaves[c]).any() for c in kids) if case["mode"] not in ("RGB",) else False
             if len(kids) < 4 or und:
                 nt = True
+    if any(s.get("kind") == "faint" for s in case["leaves"]):
+        cls.append("faint-nearly-transparent-leaf")
     if any(s.get("kind") == "allnan" for s in case["leaves"]):
         cls.append("all-NaN-leaf")
     if case.get("stale"):
